@@ -17,7 +17,7 @@ COMMON_ASSUMPTIONS = [
     "part of obligations/discharged",
 ]
 
-STORE_FNS = ["Database::get_value", "Database::set_value_version", "Database::set_value_as_ok", "Database::set_value",
+STORE_FNS = ["op_watch", "op_un_watch", "op_un_watch_all", "watch_key", "unwatch_all", "unwatch_key", "get_senders", "Database::watch_key", "Database::get_value", "Database::set_value_version", "Database::set_value_as_ok", "Database::set_value",
              "Database::remove_value", "Database::inc_value", "Change::next_version", "get_key_value_new", "remove_key",
              "is_valid_token", "is_valid_user_token", "Value::get_update_value_sate", "Value::is_in_conflict_resolution",
              "Change::allow_save_version", "Change::keep_in_conflict_resolution", "Change::resolving_conflict",
